@@ -29,6 +29,18 @@ __attribute__((noinline)) void poison_stack() {
 
 std::set<const char *> g_lang_codes, g_lang_names, g_country_codes, g_country_names;
 
+// get() is a function of its argument alone: it must answer the same way when it is called during static
+// initialisation, from a constructor that runs before the library's own translation unit has been initialised.
+// (tools/components/locale.py holds the same list.)
+const char *const kPreMain[] = {"hu_HU.UTF-8", "Hungarian_Hungary", "en_GB", "xx_GB", "English_United States.UTF-8", "nb_NO", ""};
+struct PreMain {
+    std::vector<LocaleInfo::Info> res;
+    PreMain() {
+        for (const char *s : kPreMain) res.push_back(LocaleInfo::get(s));
+    }
+};
+__attribute__((init_priority(101))) PreMain g_premain;
+
 void tables() {
     for (int i = 0; i < LocaleInfo::languagesCount; ++i) {
         g_lang_names.insert(LocaleInfo::languageInfo[i].value);
@@ -74,13 +86,15 @@ void run_exec(const Execution &ex) {
         return;
     }
     int i = 0;
+    bool pre = ex.cfg.num("pre", 0) != 0;
     for (const auto &st : ex.steps) {
         std::string in = unhex(st.str("s", ""));
         // exact-size heap copy: a read past the terminating NUL is an ASan error
         char *buf = new char[in.size() + 1];
         memcpy(buf, in.c_str(), in.size() + 1);
         poison_stack();
-        LocaleInfo::Info r = LocaleInfo::get(buf);
+        // pre=1: the answers recorded before main() (the script lists the same strings in the same order)
+        LocaleInfo::Info r = pre && (size_t) i < g_premain.res.size() && in == kPreMain[i] ? g_premain.res[i] : LocaleInfo::get(buf);
         std::string s = "\"e\":\"Res\",\"i\":" + std::to_string(i) + ",\"err\":" + (r.error ? "true" : "false");
         s += ",\"code\":" + field(r.languageCode, g_lang_codes, "en");
         s += ",\"country\":" + field(r.country, g_country_names, "United Kingdom");
